@@ -909,6 +909,16 @@ impl Analyzable for Declaration
 				// Pre-analyze the function body because it might contain
 				// untyped declarations, e.g. "var x;", whose types won't be
 				// determined in the first pass.
+				// The errors found by the pre-analysis are discarded with its
+				// results, so the symbols that it poisons have to be forgotten
+				// as well. Otherwise the real analysis takes those errors for
+				// reported and the compilation fails without any diagnostic.
+				let poisoned_before: Vec<u32> = typer
+					.symbols
+					.iter()
+					.filter(|(_id, symbol)| symbol.value_type.is_err())
+					.map(|(id, _symbol)| *id)
+					.collect();
 				typer.contextual_type = contextual_return_type.clone();
 				let prebody: FunctionBody = body.clone().analyze(typer);
 				// Pre-analyze the statements in reverse, because there might
@@ -921,6 +931,9 @@ impl Analyzable for Declaration
 				{
 					let _unused: Statement = statement.analyze(typer);
 				}
+				typer.symbols.retain(|id, symbol| {
+					symbol.value_type.is_ok() || poisoned_before.contains(id)
+				});
 
 				typer.contextual_type = contextual_return_type;
 				let body = body.analyze(typer);
